@@ -6,8 +6,9 @@
 // usage: c16 <seed> <ncases> <ncycles> [mode] [onlycase] [custom chain, e.g. "0 8 dsb,red:2"]
 //   mode is a bit mask; 0 (default) keeps the generator inside the preconditions of the Lean theorems:
 //   bit 0 (1): stall conditions are arbitrary (default: they never rise while the stalled stream offers a beat that is not taken)
-//   bit 1 (2): allow regDownstreamBlocking to feed a stage whose ready waits for valid (… -> reduceWidth), see Props.compose_live
-//   bit 2 (4): allow reduceWidth to be followed directly by delay(n >= 1)
+//   bit 1 (2): allow regDownstreamBlocking to feed a stage whose ready waits for valid (... -> reduceWidth): such chains can
+//              get stuck for good; outside the side condition of Props.compose_live, counted as observation by the driver
+//   bit 2 (4): mostly chains in which reduceWidth is followed directly by delay(n >= 1) (finding F5, fixed in /repo 553e604)
 #include <gatery/scl_pch.h>
 #include <gatery/frontend.h>
 #include <gatery/scl/stream/Stream.h>
@@ -402,7 +403,6 @@ static CaseSpec genCase(vh::Rng &rng, uint64_t id, unsigned ncycles, unsigned mo
 		CaseSpec cs = genCase1(rng, id, ncycles, mode);
 		bool a = blockingFeedsWeak(cs.stages), b = reduceThenDelay(cs.stages);
 		if (a && !(mode & 2)) continue;
-		if (b && !(mode & 4)) continue;
 		// the dedicated streams should actually contain what they are for
 		if ((mode & 2) && !a && rng.chance(3, 4)) continue;
 		if ((mode & 4) && !b && rng.chance(3, 4)) continue;
